@@ -79,7 +79,7 @@ LAST_ERROR = [""]
 LAST_CALL: list = [None]     # how to repeat the most recent exchange (-> outcome of its last call)
 
 
-def low_level(sign: bool, mangles: list[t.Optional[t.Callable[[bytes, list[bytes]], bytes]]]) -> list[str]:
+def low_level(sign: bool, mangles: list[t.Optional[t.Callable[[bytes, list[bytes]], bytes]]], opnum: int = 0) -> list[str]:
     """Performs len(mangles) consecutive requests on one connection; mangles[i] rewrites reply i.
     -> outcome per call ('authentic' | 'different' | 'error'); stops at the first error."""
     from dpapi_ng._gkdi import ISD_KEY
@@ -87,7 +87,7 @@ def low_level(sign: bool, mangles: list[t.Optional[t.Callable[[bytes, list[bytes
     from dpapi_ng._rpc._auth import AuthenticationProvider
 
     def again() -> str:
-        o = low_level(sign, mangles)
+        o = low_level(sign, mangles, opnum)
         return o[-1] if len(o) == len(mangles) or o[-1] == "error" else "error"
 
     LAST_CALL[0] = again
@@ -115,7 +115,7 @@ def low_level(sign: bool, mangles: list[t.Optional[t.Callable[[bytes, list[bytes
     for i in range(len(mangles)):
         try:
             with taps.time_limit(60):
-                resp = client.request(0, 0, _get_key_stub(3, 4 + i), verification_trailer=vt)
+                resp = client.request(0, opnum, _get_key_stub(3, 4 + i), verification_trailer=vt)
             outs.append("authentic" if resp.stub_data == conn.last_plain_body else "different")
         except MachineryError:
             raise
@@ -274,6 +274,21 @@ def run(ctx: Ctx) -> int:
                 outs = low_level(sign, pre + [lambda rep, hist, bit=bit: flip(rep, bit)])
                 add(sign, call, "flip", region, bit - lo * 8, outs[-1] if len(outs) == call else "error", "rpc")
                 ctx.distinct((sign, call, region, bit))
+    # replies without stub octets (an operation without out-parameters): the verifier still has to be checked
+    for sign in (True, False):
+        outs = low_level(sign, [None, None], refdc.EMPTY_REPLY_OPNUM)
+        add(sign, 2, "pass", "none", -1, outs[-1] if len(outs) == 2 else "error", "rpc-empty")
+        tmpl_e: list[bytes] = []
+        low_level(sign, [lambda rep, hist: (tmpl_e.append(rep), rep)[1]], refdc.EMPTY_REPLY_OPNUM)
+        if tmpl_e:
+            reg_e = _regions(tmpl_e[0])
+            for region in ("sig", "hdr", "trailer"):
+                lo, hi = reg_e[region]
+                for bit in rng.sample(range(lo * 8, hi * 8), min((hi - lo) * 8, 12)):
+                    outs = low_level(sign, [lambda rep, hist, bit=bit: flip(rep, bit)], refdc.EMPTY_REPLY_OPNUM)
+                    add(sign, 1, "flip", region, bit - lo * 8, outs[-1], "rpc-empty")
+            outs = low_level(sign, [None, lambda rep, hist: hist[-1]], refdc.EMPTY_REPLY_OPNUM)
+            add(sign, 2, "replay", "none", -1, outs[-1], "rpc-empty")
     # whole API: protect / unprotect must never use key material of a party without the session key
     for op in ("unprotect", "protect"):
         for sign in (True, False):
